@@ -7,7 +7,7 @@ for d in "$WT"/OUT/*/; do
   [ -f "$d/patch.diff" ] || continue
   res=$(/verif/tools/confirm_seed.sh "$WT" "$n" 2>&1 | grep -v conda)
   if echo "$res" | grep -q "RESULT confirmed"; then
-    k=1; while [ -d /verif/seeded/$ID-$k ]; do k=$((k+1)); done
+    k=1; while [ -d /verif/seeded/$ID-$k ] || [ -d /verif/seeded_retired/$ID-$k ]; do k=$((k+1)); done
     dst=/verif/seeded/$ID-$k; mkdir -p "$dst"
     cp "$d"/patch.diff "$dst"/; cp "$d"/*.go "$dst"/ 2>/dev/null
     HEADREV=$(git -C "$WT" rev-parse --short HEAD)
